@@ -153,6 +153,9 @@ pub fn gen_lex_rows(
         // distinct words
         if rng.chance(1, 8) {
             out.push_str(&format!("{cell},{l},{r},{},{feat}\n", c - 1 - small_cost(rng, mag).abs()));
+            if let Some(sf) = pool.last().cloned() {
+                pool.push(sf);
+            }
         }
     }
     out
@@ -427,7 +430,9 @@ pub fn gen_dict(rng: &mut Rng, cfg: &GenCfg) -> DictSrc {
         } else {
             surf.clone()
         };
-        for i in 0..n {
+        // the family has exactly `n` rows in all (the rows the surface already has count)
+        let existing = pool.iter().filter(|x| **x == surf).count();
+        for i in 0..n.saturating_sub(existing) {
             lex.push_str(&format!("{cell},{},{},{},h{i}\n", rng.below(nl), rng.below(nr), small_cost(rng, cfg.cost_mag)));
         }
     }
